@@ -181,11 +181,22 @@ def _start_param_ok(col, rule, s: SCtx, q: str, start_term, what: str, at):
     ok = all(a == p or a == S.sattr("rdeps") or a == S.sattr("rtasks") for a in S.alts(start_term))
     col.add(rule, f"{q}#{what}", ok, at, "the start collection is the caller's argument (or the 'everything' default)",
             f"start collection: {S.show(start_term)}")
-    # rebinding of the parameter only under `is None`
+    # rebinding of the parameter, and any other use of the 'everything' default, only under `is None`
     pname = p[2]
+    seen_nodes = set()
     for nid in list(s.cfg.nodes):
-        for d in s.cx.rd.defs.get(nid, []):
-            if d.name == pname and d.kind == "assign":
+        hits = [d for d in s.cx.rd.defs.get(nid, []) if d.name == pname and d.kind == "assign"]
+        nd = s.cfg.nodes[nid]
+        if not hits and nd.ast is not None and nd.kind in ("stmt", "for", "test"):
+            parts = [x for x in s.cfg.own_exprs(nid) if x is not None]
+            if any(isinstance(x, ast.Attribute) and x.attr == "rdeps" and isinstance(x.value, ast.Name) and x.value.id == "self"
+                   and isinstance(x.ctx, ast.Load) for part in parts for x in ast.walk(part)):
+                hits = [None]
+        for d in hits:
+            if nid in seen_nodes:
+                continue
+            seen_nodes.add(nid)
+            if True:
                 okn = s.under(nid, ("cmp", "is", p, ("const", "None")))
                 col.add(rule, f"{q}#default-only-when-None", okn, s.loc(nid),
                         f"`{pname}` is replaced by its 'everything' default only when it is None "
@@ -276,6 +287,10 @@ def _check_start_set(col, rule, s: SCtx, q, start, at):
                 ok, facts = False, f"start tasks filtered by {[('' if p else 'not ') + S.show(t) for p, t in g]}"
                 continue
             _start_param_ok(col, rule, s, q, m["deps"], "start-deps-are-the-argument", at)
+    elif start[:1] == ("alt",) and all(a[:1] == ("acc",) for a in start[1]):
+        for a in start[1]:          # built on two branches (e.g. once for the default, once for the argument): each on its own
+            _check_start_set(col, rule, s, q, a, at)
+        return
     elif start[:1] in (("param",), ("attr",), ("alt",)):
         ok, facts = False, f"start set is {S.show(start)}, not derived from self.deptasks"
     else:
